@@ -1069,6 +1069,9 @@ where
             };
             result = result.append(sep).append(child_doc.group());
             seen_then = true;
+        } else if seen_then && !seen_else {
+            // further children of the then branch (the `= rhs` part of an assignment)
+            result = result.append(child_doc);
         } else if seen_else {
             // This is the else branch (could be nested IfExpr for else if)
             result = result.append(allocator.space()).append(child_doc.group());
